@@ -19,3 +19,4 @@ import Solvor.Lp.Theorems
 #print axioms Solvor.Lp.chkUnbounded_sound
 #print axioms Solvor.Lp.certifies_sound
 #print axioms Solvor.Lp.chkObjAt_iff
+#print axioms Solvor.Lp.binary_tightening_sound
